@@ -2427,6 +2427,269 @@ pub fn run_programs(ctx: &Ctx, name: &str, programs: &[Space], backends: &[Backe
     rep.absorb(name, r);
 }
 
+
+// ---------------------------------------------------------------------------------------------
+// storage class and qualifiers of function-local definitions (C01 only). A `static` local is one object per definition:
+// its initialiser runs when the definition is first reached and the value survives the call; a plain (or `const`) local
+// is created again every time. Which of the two a definition is decides what the second and later calls compute, so the
+// holder function is called several times within one evaluation (twice with different arguments, three times in a
+// loop), and the definition sits at every kind of position (also inside a loop body: reached three times per call).
+
+/// (name, declared type, array suffix, initialiser built from an int expression `#`, digest of `s`, mutation of `s`, type of the digest)
+const STORAGE_TYPES: [(&str, &str, &str, &str, &str, &str, &str); 13] = [
+    ("int", "int", "", "#", "s", "s += 1;", "int"),
+    ("uint", "uint", "", "(uint)(#)", "s", "s += 1u;", "uint"),
+    ("float", "float", "", "(#) * 0.5f", "s", "s += 1.0f;", "float"),
+    ("bool", "bool", "", "((#) & 1) == 1", "(s ? 5 : 3)", "s = !s;", "int"),
+    ("int3", "int3", "", "int3(#, 1, (#) + 1)", "s.x * 100 + s.y * 10 + s.z", "s.y += 1;", "int"),
+    ("struct", "SP", "", "{ #, 0.25f }", "s.x + s.y", "s.x += 1;", "float"),
+    ("array", "int", "[3]", "{ #, 1, 2 }", "s[0] * 100 + s[1] * 10 + s[2]", "s[1] += 1;", "int"),
+    // thorough only
+    ("half", "half", "", "(half)((#) & 63) * 0.5h", "s", "s += 1.0h;", "half"),
+    ("double", "double", "", "(#) * 0.5L", "s", "s += 1.0L;", "double"),
+    ("float2", "float2", "", "float2(#, 0.5f)", "s.x * 8.0f + s.y", "s.y += 1.0f;", "float"),
+    ("uint4", "uint4", "", "uint4((uint)(#), 1u, 2u, 3u)", "s.x * 1000u + s.y * 100u + s.z * 10u + s.w", "s.w += 1u;", "uint"),
+    ("nested-struct", "SQ", "", "{ { #, 0.25f }, 3 }", "s.p.x + s.p.y + s.k", "s.k += 1;", "float"),
+    ("array-2d", "int", "[2][2]", "{ { #, 1 }, { 2, 3 } }", "s[0][0] * 1000 + s[0][1] * 100 + s[1][0] * 10 + s[1][1]", "s[1][0] += 1;", "int"),
+];
+
+/// (class name, modifiers as written)
+const STORAGE_MODS: [(&str, &str); 5] = [("plain", ""), ("const", "const "), ("static", "static "), ("static-const", "static const "), ("static-const", "const static ")];
+
+/// (name, statements before the definition, int expression the initialiser is built from; None = no initialiser)
+const STORAGE_INITS: [(&str, &str, Option<&str>); 7] = [
+    ("literal", "", Some("7")),
+    ("parameter", "", Some("x * 3")),
+    ("mutable-global", "", Some("G + 1")),
+    ("call-with-side-effect", "", Some("tick()")),
+    ("local", "int y = x + 4; ", Some("y")),
+    ("const-local", "const int ky = x - 1; ", Some("ky")),
+    ("none", "", None),
+];
+
+/// (name, body template: `$D` = definition, use and mutation; `$I` = what the position adds to the initialiser)
+const STORAGE_POSITIONS: [(&str, &str, &str); 6] = [
+    ("top", "$D", ""),
+    ("block", "{ $D }", ""),
+    ("if-branch", "if (x != 1) { $D } else { r += 1; }", ""),
+    ("loop-body", "for (int i = 0; i < 3; i++) { $D }", " + i"),
+    ("switch-case", "switch (x & 1) { case 0: r += 1; break; default: { $D } break; }", ""),
+    ("nested-loops", "for (int j = 0; j < 2; j++) { int i = j * 2; while (i < 3) { $D i += 2; } }", " + i"),
+];
+
+const STORAGE_HELPERS: &str = "static int G = 2;\nint tick() { return ++G; }\nstruct SP { int x; float y; };\nstruct SQ { SP p; int k; };\n";
+
+/// the statements of a holder: `r` accumulates a digest of the variable every time the definition is passed
+fn storage_body(ty: &(&str, &str, &str, &str, &str, &str, &str), mods: &str, init: &(&str, &str, Option<&str>), pos: &(&str, &str, &str)) -> Option<String> {
+    let is_const = mods.contains("const");
+    let def = match init.2 {
+        Some(e) => format!("{}{} s{} = {};", mods, ty.1, ty.2, ty.3.replace('#', &format!("{}{}", e, pos.2))),
+        None => {
+            if is_const {
+                return None;
+            }
+            // written on the first call only (G still has its initial value), read on every call
+            let first = match ty.0 {
+                "struct" => "s.x = x; s.y = 0.25f;".to_string(),
+                "nested-struct" => "s.p.x = x; s.p.y = 0.25f; s.k = 3;".to_string(),
+                "array" => "s[0] = x; s[1] = 1; s[2] = 2;".to_string(),
+                "array-2d" => "s[0][0] = x; s[0][1] = 1; s[1][0] = 2; s[1][1] = 3;".to_string(),
+                _ => format!("s = {};", ty.3.replace('#', "x")),
+            };
+            format!("{}{} s{}; if (G == 2) {{ {} }}", mods, ty.1, ty.2, first)
+        }
+    };
+    let d = format!("{} r = r * 3 + ({}); {}", def, ty.4, if is_const { "" } else { ty.5 });
+    Some(format!("{}{} r = 0; {} G += 10; return r;", init.1, ty.6, pos.1.replace("$D", &d)))
+}
+
+fn storage_callers(rt: &str, call: &dyn Fn(&str) -> String, tag: &str) -> Vec<Case> {
+    vec![
+        Case { src: format!("{rt} @(int x) {{ return {}; }}", call("x")), tag: tag.to_string() },
+        Case { src: format!("{rt} @(int x) {{ {rt} a = {}; {rt} b = {}; return a * 1000 + b; }}", call("x"), call("x + 10")), tag: tag.to_string() },
+        Case { src: format!("{rt} @(int x) {{ {rt} r = 0; for (int k = 0; k < 3; k++) {{ r = r * 7 + {}; }} return r; }}", call("x + k")), tag: tag.to_string() },
+    ]
+}
+
+pub fn storage_programs(thorough: bool) -> Vec<Space> {
+    let mut out = Vec::new();
+    let n_types = if thorough { STORAGE_TYPES.len() } else { 7 };
+    // every modifier set x type x initialiser kind x position, in a free function
+    for ty in &STORAGE_TYPES[..n_types] {
+        for (mclass, mods) in STORAGE_MODS {
+            for init in &STORAGE_INITS {
+                for pos in &STORAGE_POSITIONS {
+                    let body = match storage_body(ty, mods, init, pos) {
+                        Some(b) => b,
+                        None => continue,
+                    };
+                    let prelude = format!("{}{} h(int x) {{ {} }}\n", STORAGE_HELPERS, ty.6, body);
+                    let tag = format!("decl|local-storage|{}", mclass);
+                    out.push(Space { name: format!("storage_{}_{}_{}_{}", ty.0, mods.trim().replace(' ', "-"), init.0, pos.0), prelude, cases: storage_callers(ty.6, &|a| format!("h({})", a), &tag) });
+                }
+            }
+        }
+    }
+    // other kinds of holders (int; every modifier set, initialiser kind and position)
+    let int_ty = &STORAGE_TYPES[0];
+    for (mclass, mods) in STORAGE_MODS {
+        for init in &STORAGE_INITS {
+            for pos in &STORAGE_POSITIONS {
+                let body = match storage_body(int_ty, mods, init, pos) {
+                    Some(b) => b,
+                    None => continue,
+                };
+                let name = |k: &str| format!("storage_{}_{}_{}_{}", k, mods.trim().replace(' ', "-"), init.0, pos.0);
+                let tag = format!("decl|local-storage|{}", mclass);
+                // method: one object per definition, shared by every object of the struct
+                let prelude = format!("{}struct H {{ int v; int h(int x) {{ {} }} }};\n", STORAGE_HELPERS, body.replace("return r;", "return r + v;"));
+                let mut cases = vec![
+                    Case { src: "int @(int x) { H o; o.v = 1; int a = o.h(x); int b = o.h(x + 10); return a * 1000 + b; }".into(), tag: tag.clone() },
+                    Case { src: "int @(int x) { H o; o.v = 1; H p; p.v = 2; int a = o.h(x); int b = p.h(x + 10); return a * 1000 + b; }".into(), tag: tag.clone() },
+                ];
+                out.push(Space { name: name("method"), prelude, cases: std::mem::take(&mut cases) });
+                // function template: one object per definition and instantiation
+                let prelude = format!("{}template<typename T> int h(T tx) {{ int x = (int)tx; {} }}\n", STORAGE_HELPERS, body);
+                let cases = vec![
+                    Case { src: "int @(int x) { int a = h(x); int b = h(x + 10); return a * 1000 + b; }".into(), tag: tag.clone() },
+                    Case { src: "int @(int x) { int a = h(x); int b = h((uint)x + 10u); int c = h(x + 20); return a * 1000 + b * 50 + c; }".into(), tag: tag.clone() },
+                ];
+                out.push(Space { name: name("template"), prelude, cases });
+                // function in a namespace
+                let prelude = format!("{}namespace NS {{ int h(int x) {{ {} }} }}\n", STORAGE_HELPERS, body);
+                out.push(Space { name: name("namespace"), prelude, cases: storage_callers("int", &|a| format!("NS::h({})", a), &tag) });
+                // the entry function itself holds the definition (reached more than once per call only in the loop positions)
+                out.push(Space { name: name("entry"), prelude: STORAGE_HELPERS.to_string(), cases: vec![Case { src: format!("int @(int x) {{ {} }}", body), tag: tag.clone() }] });
+            }
+        }
+    }
+    // two declarators of one definition, definition in the init clause of a for, two definitions of one name in sibling
+    // scopes, a static holding the result of another holder
+    for (mclass, mods) in STORAGE_MODS {
+        let tag = format!("decl|local-storage|{}", mclass);
+        let is_const = mods.contains("const");
+        let mut add = |name: &str, holder: String| {
+            out.push(Space { name: format!("storage_{}_{}", name, mods.trim().replace(' ', "-")), prelude: format!("{}{}\n", STORAGE_HELPERS, holder), cases: storage_callers("int", &|a| format!("h({})", a), &tag) });
+        };
+        add("two-declarators", format!("int h(int x) {{ {mods}int s = x * 3, t = s + tick(); int r = s * 100 + t; {} G += 10; return r; }}", if is_const { "" } else { "s += 1; t += 2;" }));
+        add("three-declarators-mixed-init", format!("int h(int x) {{ {mods}int s = 7, t = x, u = tick(); int r = s * 10000 + t * 100 + u; {} return r; }}", if is_const { "" } else { "s += 1; t += 2; u += 3;" }));
+        add("sibling-scopes-same-name", format!("int h(int x) {{ int r = 0; {{ {mods}int s = x; r += s; {} }} {{ {mods}int s = x * 2 + 1; r = r * 100 + s; {} }} return r; }}", if is_const { "" } else { "s += 1;" }, if is_const { "" } else { "s += 5;" }));
+        add("shadowing-a-parameter", format!("int h(int x) {{ int r = x; {{ {mods}int x = r * 2 + 1; r = r * 100 + x; {} }} return r + x; }}", if is_const { "" } else { "x += 1;" }));
+        add("initialised-from-a-static", format!("int h(int x) {{ {mods}int s = x + 1; {mods}int t = s * 2 + x; int r = s * 100 + t; {} return r; }}", if is_const { "" } else { "s += 1; t += 1;" }));
+        if !is_const {
+            add("for-init", format!("int h(int x) {{ int r = 0; for ({mods}int s = x & 3; s < (x & 3) + 2; s++) {{ r = r * 10 + s + 1; }} return r; }}"));
+            add("counter", format!("int h(int x) {{ {mods}int calls = 0; calls += 1; return calls * 100 + x; }}"));
+        }
+        add("holder-calls-holder", format!("int inner(int x) {{ {mods}int s = x * 5; int r = s; {} return r; }}\nint h(int x) {{ {mods}int s = inner(x) + 1; int r = s * 10 + inner(x + 2); {} return r; }}", if is_const { "" } else { "s += 1;" }, if is_const { "" } else { "s += 3;" }));
+    }
+    out
+}
+
+// ---------------------------------------------------------------------------------------------
+// computations that are done for their side effect only (C01 only): an expression whose value selects nothing (the
+// condition of an `if` / loop with an empty body, the selector of a `switch` without statements, the clauses of a `for`
+// around an empty body), whose value is thrown away (expression statements under a pure outer operator) or is never read
+// (initialiser of an unused variable). "Nothing the source computes is dropped": the writes such an expression makes
+// (through an inout argument, to a static global, to a local by ++ -- = op=) are observed after the statement.
+
+const EFFECT_PRELUDE: &str = "static int g_calls = 0;\nbool dec(inout int b) { g_calls += 1; b -= 2; return b > 0; }\nint tick() { return ++g_calls; }\nint idf(int v) { return v + 1; }\nvoid put(out int o, int v) { o = v; g_calls += 100; }\n";
+
+/// (name, bool expression over the local `b` (0..=7 on entry), the inout parameter `q` and the global `g_calls`; as a loop
+/// condition every one of them becomes false after a few rounds)
+const EFFECT_EXPRS: [(&str, &str); 14] = [
+    ("pure", "b > 100"),
+    ("call-writing-inout-and-global", "dec(b)"),
+    ("post-decrement", "b-- > 0"),
+    ("pre-decrement", "--b > 0"),
+    ("compound-assignment", "(b -= 3) > 0"),
+    ("assignment", "(b = b - 1) > 0"),
+    ("comma", "(q++, b-- > 0)"),
+    ("short-circuit-and", "b > 0 && dec(b)"),
+    ("short-circuit-or", "!(b <= 0 || !dec(b))"),
+    ("ternary", "(b > 3 ? dec(b) : b-- > 0)"),
+    ("call-writing-global", "tick() < 3"),
+    ("call-writing-out-argument", "(put(q, b), b-- > 0)"),
+    ("constant-false", "false"),
+    ("constant-true", "true"),
+];
+
+const EFFECT_BODIES: [(&str, &str); 6] = [("empty", "{}"), ("empty", ";"), ("empty", "{ ; }"), ("empty", "{ {} }"), ("empty", "{ { ; } ; }"), ("non-empty", "{ r++; }")];
+
+fn gen_effect_only() -> Vec<Case> {
+    let mut out = Vec::new();
+    let mut add = |stmt: String, tag: String| {
+        out.push(case(format!("int @(int n, inout int q) {{ int b = n & 7; int r = 0; {} return b * 100 + r * 10 + (q & 15); }}", stmt), format!("stmt|effect-only|{}", tag)));
+    };
+    // (statement kind, slot, template with $E and $B, is a loop on $E)
+    let with_body: [(&str, &str, bool); 19] = [
+        ("if", "if ($E) $B", false),
+        ("if", "[branch] if ($E) $B", false),
+        ("if", "[flatten] if ($E) $B", false),
+        ("if", "{ if ($E) $B }", false),
+        ("if", "if (n > 2) { if ($E) $B }", false),
+        ("if", "if (n > 2) { r += 3; } else if ($E) $B", false),
+        ("if", "for (int i = 0; i < 2; i++) if ($E) $B", false),
+        ("if", "switch (n & 1) { case 0: if ($E) $B break; default: r += 5; }", false),
+        ("if-else|then", "if ($E) $B else { r += 2; }", false),
+        ("if-else|else", "if ($E) { r += 2; } else $B", false),
+        ("if-else|both", "if ($E) $B else $B", false),
+        ("while", "while ($E) $B", true),
+        ("while", "[loop] while ($E) $B", true),
+        ("do-while", "do $B while ($E);", true),
+        ("for|condition", "for (; $E; ) $B", true),
+        ("for|init", "for ($E; b > 50; ) $B", false),
+        ("for|increment", "for (int i = 0; i++ < 2; $E) $B", false),
+        ("for|init-declaration", "for (bool u = $E; b > 50; ) $B", false),
+        ("for|all-clauses", "for ($E; $E; $E) $B", true),
+    ];
+    for (kind, tpl, is_loop) in with_body {
+        for (ename, e) in EFFECT_EXPRS {
+            if is_loop && ename == "constant-true" {
+                continue;
+            }
+            for (bclass, body) in EFFECT_BODIES {
+                add(tpl.replace("$E", e).replace("$B", body), format!("{}|{}-body", kind, bclass));
+            }
+        }
+    }
+    // no body at all
+    let without_body: [(&str, &str); 22] = [
+        ("switch|no-statements", "switch (($E) ? 1 : 0) {}"),
+        ("switch|no-statements", "switch (($E) ? 1 : 0) { }  r += 1;"),
+        ("switch|only-default", "switch (($E) ? 1 : 0) { default: break; }"),
+        ("switch|only-breaks", "switch (($E) ? 1 : 0) { case 0: break; case 1: break; }"),
+        ("switch|only-labels", "switch (($E) ? 1 : 0) { case 0: case 1: default: ; }"),
+        ("expression-statement|bare", "$E;"),
+        ("expression-statement|ternary", "($E) ? 1 : 2;"),
+        ("expression-statement|not", "!($E);"),
+        ("expression-statement|arithmetic", "(int)($E) + 1;"),
+        ("expression-statement|compare", "($E) == true;"),
+        ("expression-statement|pure-call", "idf((int)($E));"),
+        ("expression-statement|comma-left", "(($E), 1);"),
+        ("expression-statement|comma-right", "(1, ($E));"),
+        ("expression-statement|cast", "(float)($E);"),
+        ("expression-statement|parenthesised", "(($E));"),
+        ("unused-variable|plain", "bool u = $E;"),
+        ("unused-variable|const", "const bool u = $E;"),
+        ("unused-variable|static", "static bool u = $E;"),
+        ("unused-variable|aggregate", "int u[2] = { ($E) ? 1 : 0, 2 };"),
+        ("unused-variable|second-declarator", "int u = 1, w = ($E) ? 1 : 0;"),
+        ("unused-variable|in-empty-block", "{ bool u = $E; }"),
+        ("return-value-ignored", "idf(($E) ? 1 : 0);"),
+    ];
+    for (kind, tpl) in without_body {
+        for (_, e) in EFFECT_EXPRS {
+            add(tpl.replace("$E", e), kind.to_string());
+        }
+    }
+    // statements that only hold other effect-free-looking statements
+    for (_, e) in EFFECT_EXPRS {
+        add(format!("{{ }} {{ {{ }} }} ; ; if ({e}) {{ }} ; {{ }}"), "if|empty-body".into());
+        add(format!("if (n > 100) {{ }} else {{ }} if ({e}) {{ }} else {{ }}"), "if-else|both|empty-body".into());
+    }
+    out
+}
+
 // ---------------------------------------------------------------------------------------------
 // spaces
 
@@ -2460,6 +2723,7 @@ pub fn spaces(ctx: &Ctx) -> Vec<Space> {
         v.push(Space { name: format!("context_decl{}", i), prelude: prelude.into(), cases: vec![case(body.into(), tag.into())] });
     }
     v.push(Space { name: "statements".into(), prelude: String::new(), cases: gen_statements() });
+    v.push(Space { name: "effect_only".into(), prelude: EFFECT_PRELUDE.into(), cases: gen_effect_only() });
     for (i, d) in gen_decls().into_iter().enumerate() {
         v.push(Space { name: format!("decl{}", i), prelude: d.prelude, cases: d.cases });
     }
@@ -2488,9 +2752,17 @@ pub fn run(ctx: &Ctx) -> i32 {
     let mut rep = Report::new("exploration");
     rep.rule = "a function counts when the type checker accepted it, the exporter produced text, the text was re-read without the type checker and at least one argument tuple was evaluated by both interpreters; distinct = different (prelude, function source, target)".into();
     let opts = Opts { cap: 100, verbose: false, only_args: None };
-    let layouts = layout_programs(ctx);
-    run_programs(ctx, "declaration_layouts", &layouts, &HLSL_BACKENDS, &opts, &mut rep);
+    // triage aid: C01_ONLY=<name> restricts a run to the spaces whose name contains <name> (never set in a recorded run)
+    let only = std::env::var("C01_ONLY").ok();
+    let wanted = |name: &str| only.as_deref().map(|o| name.contains(o)).unwrap_or(true);
+    if wanted("declaration_layouts") {
+        let layouts = layout_programs(ctx);
+        run_programs(ctx, "declaration_layouts", &layouts, &HLSL_BACKENDS, &opts, &mut rep);
+    }
     for sp in spaces(ctx) {
+        if !wanted(&sp.name) {
+            continue;
+        }
         let n_units = sp.cases.len().div_ceil(UNIT) as u64;
         let r = run_par(ctx, n_units, 1, |u, acc| {
             let lo = u as usize * UNIT;
@@ -2502,8 +2774,14 @@ pub fn run(ctx: &Ctx) -> i32 {
         rep.cov(&format!("functions_{}", sp.name), Json::Int(sp.cases.len() as i64));
         rep.absorb(&sp.name, r);
     }
-    let programs = program_spaces(ctx);
-    run_programs(ctx, "whole_programs", &programs, &HLSL_BACKENDS, &opts, &mut rep);
+    if wanted("whole_programs") {
+        let programs = program_spaces(ctx);
+        run_programs(ctx, "whole_programs", &programs, &HLSL_BACKENDS, &opts, &mut rep);
+    }
+    if wanted("local_storage") {
+        let storage = storage_programs(!ctx.quick());
+        run_programs(ctx, "local_storage", &storage, &HLSL_BACKENDS, &opts, &mut rep);
+    }
     rep.cov("targets", Json::Arr(HLSL_BACKENDS.iter().map(|c| c.cfg().name().into()).collect()));
     rep.cov("fuel_per_evaluation", Json::Int(FUEL as i64));
     rep.cov("functions_per_compilation_unit", Json::Int(UNIT as i64));
@@ -2518,6 +2796,8 @@ pub fn run(ctx: &Ctx) -> i32 {
                 "statements: expression, declarations with 1-3 declarators, nested blocks with shadowing, if / if-else / dangling else, for with every init form, while, do-while, switch with fall-through / default first / blocks / inside loops, break, continue, early return, return in loops, statement attributes",
                 "declarations: overload sets, function templates instantiated at two types, default arguments, struct methods reading and writing members, namespaces (nested), enums with explicit values, static const, static globals (scalar, vector, array) mutated across calls, forward declarations, struct and array parameters (in, out, inout), out/inout parameters incl. aliasing of one variable to an in and an out parameter",
                 "declaration layouts: every sequence of up to 3 root-level definitions (quick: all kinds up to 2, four kinds at 3; static global initialised by a counter-bumping call / by reading the counter / from the nearest earlier global plus a call; function; struct with method; thorough also enum and static const) x every placement over the scopes {global, N, M, N::I, M::I} x every choice of how many shared namespace blocks stay open between neighbours (so: reopened namespaces after definitions of the enclosing scope, after another namespace, adjacent blocks, nested blocks, equal inner names under different parents); sequences of 4 (quick: call-initialised global and function; thorough: the three global kinds and function) and of 5 / 6 definitions over fewer kinds; observed through every definition by qualified name, the counter, and writes to every global",
+                "local storage: every modifier set {none, const, static, static const, const static} x type {int uint float bool int3 struct array; thorough also half double float2 uint4 nested struct 2-D array} x initialiser {literal, parameter, mutable static global, call with a side effect, local, const local, none} x position of the definition {function top, nested block, conditionally reached branch, loop body, switch case, nested loops} in a free function called once / twice with different arguments / three times in a loop; for int also in a struct method (two objects), a function template (two instantiations), a namespace function and the entry function itself; two and three declarators, for-init definitions, sibling scopes with one name, shadowed parameter, static initialised from a static, holder calling holder",
+                "effect-only computations: every expression kind with a side effect {call writing an inout argument and a static global, call writing a static global, call writing an out argument, x-- --x, op=, =, comma, && / || / ?: guarding a call, none, constant false / true} x every slot whose value selects or feeds nothing {condition of if (plain, [branch], [flatten], nested, in else-if, in a loop, in a switch case), of if-else (either arm or both empty), of while / [loop] while / do-while, each clause of for, for-init definition} x body {`{}`, `;`, `{ ; }`, `{ {} }`, `{ { ; } ; }`, non-empty}; switch without statements / with only labels and breaks; expression statements under a pure outer operator (?: ! + == call comma cast parentheses); initialisers of unused variables (plain, const, static, aggregate, later declarator, in a block of its own); ignored return value",
                 "intrinsics compared for bits: abs min max clamp saturate floor ceil trunc round frac fmod sqrt rsqrt rcp sign step lerp smoothstep dot cross length normalize distance reflect any all select and or countbits reversebits firstbithigh firstbitlow asint asuint asfloat f16tof32 f32tof16 isnan isinf isfinite; transcendental (sin cos tan asin acos atan atan2 sinh cosh tanh exp exp2 log log2 log10 pow) compared for which function is called",
             ]
             .iter()
@@ -2531,7 +2811,6 @@ pub fn run(ctx: &Ctx) -> i32 {
             [
                 "matrices, resource / object types and their methods, cbuffers and other extern globals, groupshared, pipelines and entry-point semantics, interpolation modifiers, struct templates, pointers",
                 "wave / quad operations, derivatives, atomics, barriers, discard, sizeof, strings, 64-bit integer literals, asdouble, out-parameter intrinsics (sincos, modf), refract, mul / transpose / determinant",
-                "function-local static variables",
                 "accepted by the rssl type checker but without HLSL meaning (skipped and counted): shift / bitwise compound assignment on floating point operands, explicit casts the typer does not validate (e.g. 2-vector to 3-vector), unary + / - on bool (typed bool by rssl, int by HLSL)",
                 "unspecified in HLSL (skipped on both sides and counted): integer division / modulus by zero, INT_MIN / -1, out-of-range or NaN float to int, reads of uninitialised values, out-of-bounds subscripts, literal integer arithmetic leaving 32 bits, bit patterns of NaN",
                 "programs for which rssl::compile panics (counted as export_panicked, a C08 matter): `static const int A = -2147483648` style INT_MIN literals, vector operands combined with an untyped literal that needs a vector-of-literal cast (e.g. `int3 a; a * 0.0`)",
@@ -2545,6 +2824,7 @@ pub fn run(ctx: &Ctx) -> i32 {
     rep.assumptions.push("HLSL semantics are those of exec::c_interp (dynamic typing under the C-like rules of HLSL 2021: literal typing by suffix, usual arithmetic conversions, implicit conversions at initialisers / assignments / arguments / returns, copy-in/copy-out), not of a real HLSL compiler; the rssl lexer/parser is trusted as the reader of emitted text (checked by C09/C10)".into());
     rep.assumptions.push("value dimension: boundary grid per scalar type (ints {0,1,2,3,-1,7,31,32,INT_MIN,INT_MAX}, uints {0,1,2,3,7,31,32,0x80000000,UINT_MAX}, floats {0,-0,0.5,1,-1,2.5,1e-3,16777216,3.4e38,inf}, vectors with distinct components); all tuples when there are at most 100 per function, otherwise a deterministic greedy pairwise-covering subset over a 6-value grid per parameter: the program dimension is exhaustive within each space, the input dimension is covering".into());
     rep.assumptions.push("S1-S11 of DESIGN 4.5: 32-bit wrap-around, shift counts mod 32, IEEE single operations without contraction, half = binary32 operation rounded to binary16, operands and arguments evaluated left to right, copy-in/copy-out in parameter order, static globals initialised once per evaluation; NaN results compare equal, +0/-0 are distinguished; cases where the source itself does something HLSL leaves unspecified are skipped on both sides and counted".into());
+    rep.assumptions.push("a function-local static is one object per definition (per instantiation of a function template), its initialiser runs when the definition is first reached and its value survives the call (C++ [stmt.dcl]/4 without the thread-safety part, which is what HLSL 2021 / DXC implement); it is observed through the results of several calls within one evaluation; a static local without initialiser that is read before it is written counts as an uninitialised read (skipped on both sides)".into());
     rep.assumptions.push("f' is the function at the same position in declaration order of the emitted text (the exporter may rename); static globals are matched by declaration order".into());
     finish(ctx, rep)
 }
